@@ -295,7 +295,7 @@ PROPS = {
         "level": "proof",
         "lean": ["PasfmtModel.Props.C13"],
         "streams": [
-            {"stream": "lex", "families": ALL_FAMILIES + ",lexfam", "quick": 4000, "thorough": 60000},
+            {"stream": "lex", "families": ALL_FAMILIES + ",lexfam,tokfam", "quick": 4000, "thorough": 60000},
         ],
         "oracle_prefixes": ["lex"],
         "abnormal_binding": True,
